@@ -30,6 +30,7 @@ class TraceVerdict:
         self.bad_inv = None
         self.model = None
         self.at = None
+        self.truncated = False
 
     @property
     def accepted(self):
@@ -68,7 +69,7 @@ class TraceVerdict:
         }
 
 
-def validate(module, cfg, traces, batch=1500, timeout=3600, extra_env=None):
+def validate(module, cfg, traces, batch=1500, timeout=3600, extra_env=None, wanted=None):
     """Validate all traces; returns (verdicts, tlc_stats)."""
     verdicts = []
     stats = {"states": 0, "transitions": 0, "runs": 0, "wall": 0.0}
@@ -94,10 +95,16 @@ def validate(module, cfg, traces, batch=1500, timeout=3600, extra_env=None):
         vs = [TraceVerdict(start + i, t) for i, t in enumerate(chunk)]
         for rec in res.printed.get("TRACE", []):
             v = vs[rec["t"] - 1]
-            if v.bad_obs or v.bad_inv:
+            if v.bad_obs or v.bad_inv or v.truncated:
+                continue
+            if rec.get("skip"):
+                # the specification does not describe this input: the rest of the trace is not judged
+                v.truncated = True
+                v.consumed = min(v.consumed, rec["l"] - 1)
+                v.trace = dict(v.trace, events=v.trace["events"][: rec["l"] - 1])
                 continue
             bo = rec.get("bo") or []
-            bi = rec.get("bi") or []
+            bi = [x for x in (rec.get("bi") or []) if wanted is None or x in wanted]
             if bo or bi:
                 v.bad_obs = list(bo) or None
                 v.bad_inv = list(bi) or None
